@@ -109,3 +109,60 @@ Theorem C14_rewrite_is_grouping_total :
   forall pls p, exists q, run_plugins pls p = Some (Ok q) /\ grouping (allowed_by pls) p q.
 Proof. exact (fun pls p => rewrite_is_grouping_total pls p C14_rewrite_facts_ok). Qed.
 Print Assumptions C14_rewrite_is_grouping_total.
+
+(* ================================================================== the part of speech a plugin is configured with
+   JoinKatakanaOovPlugin's oovPOS and JoinNumericPlugin's 名詞,数詞,*,*,*,* are turned into ids by
+   Grammar::get_part_of_speech_id at set-up (Model/PosLookup.v, component level).  The id is that of the FIRST row of the
+   grammar's POS table that EQUALS the configured six components; "*" is an ordinary component, not a wildcard -- so a
+   merged token carries exactly the configured part of speech, also for a conjugating one such as
+   動詞,非自立可能,*,*,五段-カ行,連用形-促音便 whose family has an earlier member in the table. *)
+From Coq Require Import String.
+From SudachiVerif Require Import Model.PosLookup Proofs.PosLookupProofs.
+From SudachiVerif Require Generated.PosLookupFacts.
+
+(* the source compares the WHOLE requested vector with every row, after the length guard, rows in table order, first match
+   returned; POS_DEPTH is six; no part in front of a "*" is cut out *)
+Fact C14_fact_pos_lookup_compares_whole_vector :
+  Generated.PosLookupFacts.lookup_compares = "requested"%string
+  /\ Generated.PosLookupFacts.lookup_length_guard = true
+  /\ Generated.PosLookupFacts.lookup_first_match_in_table_order = true
+  /\ Generated.PosLookupFacts.lookup_prefix_before_star = false
+  /\ Generated.PosLookupFacts.pos_depth = 6.
+Proof. vm_compute. repeat split; reflexivity. Qed.
+
+Theorem C14_pos_lookup_exact :
+  forall tbl p i,
+    Forall (fun row => List.length row = Generated.PosLookupFacts.pos_depth) tbl ->
+    (lookup tbl p = Some i <->
+     List.length p = Generated.PosLookupFacts.pos_depth /\ nth_error tbl i = Some p
+     /\ forall j, j < i -> nth_error tbl j <> Some p).
+Proof.
+  exact (lookup_exact (proj1 C14_fact_pos_lookup_compares_whole_vector) (proj1 (proj2 C14_fact_pos_lookup_compares_whole_vector))).
+Qed.
+Print Assumptions C14_pos_lookup_exact.
+
+Theorem C14_pos_lookup_none :
+  forall tbl p,
+    Forall (fun row => List.length row = Generated.PosLookupFacts.pos_depth) tbl ->
+    (lookup tbl p = None <-> List.length p <> Generated.PosLookupFacts.pos_depth \/ ~ In p tbl).
+Proof.
+  exact (lookup_none (proj1 C14_fact_pos_lookup_compares_whole_vector) (proj1 (proj2 C14_fact_pos_lookup_compares_whole_vector))).
+Qed.
+Print Assumptions C14_pos_lookup_none.
+
+Theorem C14_pos_lookup_star_is_ordinary :
+  forall tbl p i row,
+    Forall (fun row => List.length row = Generated.PosLookupFacts.pos_depth) tbl ->
+    lookup tbl p = Some i -> nth_error tbl i = Some row -> row = p.
+Proof.
+  exact (star_is_ordinary (proj1 C14_fact_pos_lookup_compares_whole_vector) (proj1 (proj2 C14_fact_pos_lookup_compares_whole_vector))).
+Qed.
+Print Assumptions C14_pos_lookup_star_is_ordinary.
+
+(* JoinKatakanaOovPlugin has no defaults (minLength and oovPOS are required: every stack spells them out); JoinNumericPlugin normalises when enableNormalize is absent
+   (Generated/PluginDefaults.v reads both spellings of every settings struct: Option + unwrap_or, serde default) *)
+From SudachiVerif Require Generated.PluginDefaults.
+Fact C14_fact_plugin_setting_defaults :
+  forallb (fun kv => existsb (fun x => (String.eqb (fst x) (fst kv) && String.eqb (snd x) (snd kv))%bool) Generated.PluginDefaults.when_absent)
+          [("join_katakana_oov.minLength", "required"); ("join_katakana_oov.oovPOS", "required"); ("join_numeric.enableNormalize", "true")]%string = true.
+Proof. vm_compute. reflexivity. Qed.
